@@ -4,7 +4,8 @@
 \*
 \* Every solid geom on the lattice is a "rounded box": an axis-aligned core box with half sizes h (a point for a
 \* sphere, a segment for a capsule lying along a coordinate axis, the box itself for a box) inflated by a
-\* radius r (0 for a box).  A plane is the half space z <= z0 with normal +z.  All lengths are integers in
+\* radius r (0 for a box).  Axis-parallel cylinders and axis-aligned ellipsoids are admitted where their extent is
+\* reached on a line through the centre (see RoundOK).  A plane is the half space z <= z0 with normal +z.  All lengths are integers in
 \* quarter units, so the signed distance, the normal (a signed coordinate axis) and the two facing surfaces are
 \* exact.  Geom A belongs to the world (a plane is always A), geom B to a body that can be placed anywhere.
 \*
@@ -28,7 +29,8 @@ vars == <<A, B, margin, cB, phase, nops, ev>>
 
 IAbs(i) == IF i < 0 THEN 0 - i ELSE i
 Sgn(i) == IF i < 0 THEN -1 ELSE IF i > 0 THEN 1 ELSE 0
-Rank(s) == CASE s.kind = "plane" -> 0 [] s.kind = "sphere" -> 2 [] s.kind = "capsule" -> 3 [] OTHER -> 6
+Rank(s) == CASE s.kind = "plane" -> 0 [] s.kind = "sphere" -> 2 [] s.kind = "capsule" -> 3 [] s.kind = "ellipsoid" -> 4
+            [] s.kind = "cylinder" -> 5 [] OTHER -> 6
 Axes == {1, 2, 3}
 
 \* ---- geometry of the ordered pair (P at cP, Q at cQ), direction P -> Q -----------------------------
@@ -37,7 +39,29 @@ PosAxes(P, cP, Q, cQ) == {k \in Axes : Gap(P, cP, Q, cQ, k) > 0}
 MaxGap(P, cP, Q, cQ) == CHOOSE g \in {Gap(P, cP, Q, cQ, k) : k \in Axes} : \A k \in Axes : Gap(P, cP, Q, cQ, k) <= g
 MaxAxes(P, cP, Q, cQ) == {k \in Axes : Gap(P, cP, Q, cQ, k) = MaxGap(P, cP, Q, cQ)}
 Solid(s) == s.kind # "plane"
-OverlapOK(P, Q) == (P.kind = "box" /\ Q.kind = "box") \/ (P.kind = "sphere" /\ Q.kind = "box") \/ (P.kind = "box" /\ Q.kind = "sphere")
+OverlapOK(P, Q) == \/ (P.kind = "box" /\ Q.kind = "box")
+                   \/ (P.kind = "sphere" /\ Q.kind \in {"box", "cylinder"})
+                   \/ (Q.kind = "sphere" /\ P.kind \in {"box", "cylinder"})
+\* Round geoms.  A cylinder along axis ax with radius rho and half height H has h[ax] = H and h = rho on the two
+\* other axes; an ellipsoid has h = its semi-axes.  Their extent along a coordinate axis is reached on the line
+\* through the centre only, so the rounded-box formulas hold
+\*   * for a sphere against a cylinder when the sphere centre is displaced from the cylinder axis along at most one
+\*     coordinate axis (outside facing the cap, outside facing the side, and inside: nearest of cap and side),
+\*   * for every other pair with a round geom only when the centres differ along the normal axis alone and the
+\*     geoms do not penetrate; an ellipsoid is paired with planes and spheres only (the general convex collider is
+\*     iteration-capped for two smooth bodies: that accuracy is not this property's subject).
+Round(s) == s.kind \in {"cylinder", "ellipsoid"}
+OffAxis(C, cC, cS) == Cardinality({j \in Axes : j # C.ax /\ cS[j] # cC[j]})
+RoundOK(P, cP, Q, cQ) ==
+  IF ~Round(P) /\ ~Round(Q) THEN TRUE
+  ELSE IF P.kind = "cylinder" /\ Q.kind = "sphere" THEN OffAxis(P, cP, cQ) <= 1
+  ELSE IF Q.kind = "cylinder" /\ P.kind = "sphere" THEN OffAxis(Q, cQ, cP) <= 1
+  ELSE /\ (P.kind = "ellipsoid" => Q.kind = "sphere") /\ (Q.kind = "ellipsoid" => P.kind = "sphere")
+       /\ PosAxes(P, cP, Q, cQ) # {}
+       /\ \A j \in Axes : j \in PosAxes(P, cP, Q, cQ) \/ cQ[j] = cP[j]
+       \* these pairs go through the general convex collider: penetration depth comes from the expanding-polytope
+       \* approximation, whose accuracy is not this property's subject; separated configurations only
+       /\ \A k \in PosAxes(P, cP, Q, cQ) : Gap(P, cP, Q, cQ, k) - P.r - Q.r > 0
 \* the axis of the normal
 NAxis(P, cP, Q, cQ) ==
   IF ~Solid(P) \/ ~Solid(Q) THEN 3
@@ -58,6 +82,7 @@ Surf(P, cP, Q, cQ) ==
      IF Solid(Q) THEN cQ[k] - s * (Q.h[k] + Q.r) ELSE cQ[3] >>
 Decidable(P, cP, Q, cQ, m) ==
   /\ (Solid(P) \/ Solid(Q))
+  /\ (IF Solid(P) /\ Solid(Q) THEN RoundOK(P, cP, Q, cQ) ELSE TRUE)
   /\ (IF Solid(P) /\ Solid(Q)
       THEN IF PosAxes(P, cP, Q, cQ) # {}
            THEN Cardinality(PosAxes(P, cP, Q, cQ)) = 1
@@ -100,6 +125,7 @@ Place(c) ==
             \* from the first geom of the contact to the second
             sign |-> IF Rank(A) <= Rank(B) THEN NSign(A, Origin, B, c) ELSE 0 - NSign(A, Origin, B, c),
             firstA |-> Rank(A) <= Rank(B),
+            deep |-> Solid(A) /\ PosAxes(A, Origin, B, c) = {},      \* cores overlap (sphere centre inside, box in box)
             surf |-> Surf(A, Origin, B, c),
             region |-> Region(A, Origin, B, c),
             c |-> c]
@@ -107,7 +133,7 @@ Place(c) ==
 \* mj_geomDistance in both argument orders
 GeomDist(ab) ==
   /\ phase = (IF ab THEN "ready" ELSE "d1") /\ phase' = (IF ab THEN "d1" ELSE "d2")
-  /\ ev' = [op |-> "gdist", ab |-> ab, c |-> cB,
+  /\ ev' = [op |-> "gdist", ab |-> ab, c |-> cB, deep |-> Solid(A) /\ PosAxes(A, Origin, B, cB) = {},
             dist |-> IF ab THEN Dist(A, Origin, B, cB) ELSE Dist(B, cB, A, Origin)]
   /\ UNCHANGED <<A, B, margin, cB, nops>>
 Next == \/ \E s \in ShapesA : PickA(s)
@@ -140,16 +166,22 @@ GeomDistAgrees == ev.op = "gdist" => ev.dist = Dist(A, Origin, B, cB)
 NegNoPenetration == ev.op = "forward" /\ ev.reported => ev.dist >= 0
 
 \* ---- constants for the configurations (quarter units) ----------------------------------------------------
-Sphere(r) == [kind |-> "sphere", h |-> <<0, 0, 0>>, r |-> r]
-Capsule(a, r, l) == [kind |-> "capsule", h |-> [k \in 1..3 |-> IF k = a THEN l ELSE 0], r |-> r]
-Box(x, y, z) == [kind |-> "box", h |-> <<x, y, z>>, r |-> 0]
-Plane == [kind |-> "plane", h |-> <<0, 0, 0>>, r |-> 0]
-MC_ShapesA == {Plane, Sphere(4), Capsule(3, 2, 4), Capsule(1, 2, 4), Capsule(2, 4, 2), Box(4, 2, 6), Box(2, 2, 2)}
-MC_ShapesB == {Sphere(2), Sphere(6), Capsule(3, 2, 2), Capsule(1, 2, 4), Box(2, 4, 2), Box(6, 2, 4)}
+Sphere(r) == [kind |-> "sphere", h |-> <<0, 0, 0>>, r |-> r, ax |-> 0]
+Capsule(a, r, l) == [kind |-> "capsule", h |-> [k \in 1..3 |-> IF k = a THEN l ELSE 0], r |-> r, ax |-> a]
+Box(x, y, z) == [kind |-> "box", h |-> <<x, y, z>>, r |-> 0, ax |-> 0]
+Plane == [kind |-> "plane", h |-> <<0, 0, 0>>, r |-> 0, ax |-> 0]
+Cylinder(a, rho, hh) == [kind |-> "cylinder", h |-> [k \in 1..3 |-> IF k = a THEN hh ELSE rho], r |-> 0, ax |-> a]
+Ellipsoid(x, y, z) == [kind |-> "ellipsoid", h |-> <<x, y, z>>, r |-> 0, ax |-> 0]
+MC_ShapesA == {Plane, Sphere(4), Capsule(3, 2, 4), Capsule(1, 2, 4), Capsule(2, 4, 2), Box(4, 2, 6), Box(2, 2, 2),
+               Cylinder(3, 4, 6), Cylinder(1, 2, 4), Ellipsoid(2, 4, 6)}
+MC_ShapesB == {Sphere(2), Sphere(6), Capsule(3, 2, 2), Capsule(1, 2, 4), Box(2, 4, 2), Box(6, 2, 4),
+               Cylinder(3, 2, 2), Cylinder(2, 4, 2), Ellipsoid(4, 2, 2)}
 MC_Centers == {<<x, y, z>> : x \in {-11, -7, -3, 0, 1, 5, 9}, y \in {0, 2}, z \in {-12, -9, -5, -1, 0, 3, 5, 7, 11}}
 MC_Margins == {0, 2}
-Deep_ShapesA == {Plane, Sphere(2), Sphere(4), Capsule(3, 2, 4), Capsule(1, 2, 4), Capsule(2, 4, 2), Box(4, 2, 6), Box(2, 2, 2)}
-Deep_ShapesB == {Sphere(2), Sphere(6), Capsule(3, 2, 2), Capsule(1, 2, 4), Capsule(2, 2, 6), Box(2, 4, 2), Box(6, 2, 4)}
+Deep_ShapesA == {Plane, Sphere(2), Sphere(4), Capsule(3, 2, 4), Capsule(1, 2, 4), Capsule(2, 4, 2), Box(4, 2, 6), Box(2, 2, 2),
+                 Cylinder(3, 4, 6), Cylinder(1, 2, 4), Cylinder(2, 6, 2), Ellipsoid(2, 4, 6)}
+Deep_ShapesB == {Sphere(2), Sphere(6), Capsule(3, 2, 2), Capsule(1, 2, 4), Capsule(2, 2, 6), Box(2, 4, 2), Box(6, 2, 4),
+                 Cylinder(3, 2, 2), Cylinder(2, 4, 2), Cylinder(1, 6, 4), Ellipsoid(4, 2, 2)}
 Deep_Centers == {<<x, y, z>> : x \in {-14, -11, -3, 0, 1, 2, 9, 13}, y \in {-9, 0, 1, 10}, z \in {-12, -7, -1, 0, 3, 5, 11, 15}}
 Deep_Margins == {0, 2, 5}
 =============================================================================
